@@ -94,10 +94,10 @@ def enum_replay(jb, r, limit):
     return res[0]
 
 
-def trace_validate(path, cfg="Trace_Json8259.cfg", wid="c13t", par=1):
+def trace_validate(path, cfg="Trace_Json8259.cfg", wid="c13t", par=1, chunk=CHUNK):
     """Validate an ndjson log with TLC, in chunks. Returns (records, [(line_index, why)], [TLCResult])."""
     lines = [l for l in open(path).read().split("\n") if l.strip()]
-    chunks = [lines[i:i + CHUNK] for i in range(0, len(lines), CHUNK)] or [[]]
+    chunks = [lines[i:i + chunk] for i in range(0, len(lines), chunk)] or [[]]
     rejected, runs = [], []
 
     def one(k):
@@ -118,7 +118,7 @@ def trace_validate(path, cfg="Trace_Json8259.cfg", wid="c13t", par=1):
             rr = [x for x in t.prints if isinstance(x, dict) and "rejected" in x]
             if not rr:
                 raise ToolError("trace validation: invariant violated without a rejection list\n" + t.out[-1500:])
-            rej = [(k * CHUNK + x["i"] - 1, x["why"]) for x in rr[-1]["rejected"]]
+            rej = [(k * chunk + x["i"] - 1, x["why"]) for x in rr[-1]["rejected"]]
         return t, rej
 
     with cf.ThreadPoolExecutor(max_workers=par) as ex:
@@ -165,12 +165,11 @@ def lane_spaces(jb, limit, spaces, workers, tag):
     return res
 
 
-def lane_sens(cfgs, module="MC_Json8259.tla"):
-    out = []
-    for cfg, dev in cfgs:
-        r = run_tlc(module, cfg, D, workers=1, timeout=900, work_id="c13s" + dev)
-        out.append((cfg, dev, r))
-    return out
+def lane_sens(cfgs, module="MC_Json8259.tla", par=1):
+    def one(cd):
+        return (cd[0], cd[1], run_tlc(module, cd[0], D, workers=1, timeout=900, work_id="c13s" + cd[1] + module[3:8]))
+    with cf.ThreadPoolExecutor(max_workers=par) as ex:
+        return list(ex.map(one, cfgs))
 
 
 def lane_machine(thorough):
@@ -249,7 +248,7 @@ def run(tier, replay):
         f_main = ex.submit(lane_spaces, jb, limit, main_space + side_spaces, 2, "m")
 
         def lane_full():
-            return [(cfg, run_tlc("MC_Json8259.tla", cfg, D, workers=2 if thorough else 1, timeout=2400, work_id="c13c", heap="6g"))
+            return [(cfg, run_tlc("MC_Json8259.tla", cfg, D, workers=2, timeout=2400, work_id="c13c", heap="6g"))
                     for cfg in ["MC_Json8259_full_%s.cfg" % suffix] + ["MC_Json8259_full_%s.cfg" % x for x in ("num", "obj", "esc", "sur", "ser")]]
 
         def lane_cover():
@@ -257,9 +256,9 @@ def run(tier, replay):
             return run_tlc("MC_JsonMachine.tla", "MC_JsonMachine_cover.cfg", D, workers=1, coverage=True, timeout=1800, work_id="c13mc", heap="8g")
 
         def lane2():
-            sens = lane_sens(SENS)
-            dv = trace_validate(docs_path, wid="c13d", par=1 if thorough else 2)
-            sv = trace_validate(ser_path, wid="c13e")
+            sens = lane_sens(SENS, par=2)
+            dv = trace_validate(docs_path, wid="c13d", par=2, chunk=CHUNK if thorough else 7000)
+            sv = trace_validate(ser_path, wid="c13e", par=2, chunk=15000 if thorough else 3000)
             iv = trace_validate(idx_path, wid="c13i")
             return sens, dv, sv, iv
         f_l2 = ex.submit(lane2)
